@@ -147,3 +147,75 @@ def code_to_spec(chk, cfgs, make_reals, tag='', solvers=('SCIPY', None), split=N
                         verdict=verdicts[0], trace={k: traces[0][k] for k in ('K', 'tol', 'frac', 'rval', 'rdcf', 'cx')},
                         first_step=traces[0]['steps'][0]), limit=4)
     return meta, verdicts
+
+
+# ---------------------------------------------------------------------------------------------- generic layer (zoo)
+def zoo_portfolio_traces(chk, seeds, routes=('mono', 'split', 'io'), zoo_list=None, clause_filter=None, tag='zoo'):
+    """optimise every zoo portfolio along every route, validate the reported tables with Trace_Portfolio.
+    clause_filter(verdict) -> bool selects the rejections that belong to the calling property."""
+    from harness import zoo
+    from harness.realise import eao, quiet
+    traces, meta = [], []
+    for seed in seeds:
+        for z in (zoo_list or zoo.ZOO):
+            for route in routes:
+                name, pf, pr, tg = z(seed)
+                sel = dict(check='portfolio_trace', family=tag, portfolio=name, route=route)
+                try:
+                    with quiet():
+                        if route == 'mono':
+                            op = pf.setup_optim_problem(pr, tg)
+                            res = op.optimize()
+                            out = eao.io.extract_output(pf, op, res) if not isinstance(res, str) else None
+                        elif route == 'split':
+                            # an interval must hold at least one coarse step / one period of every asset
+                            op = pf.setup_split_optim_problem(pr, tg, interval_size='4h' if name in ('coarse', 'periodic', 'periodic_duration') else '2h')
+                            res = op.optimize()
+                            out = eao.io.extract_output(pf, op, res) if not isinstance(res, str) else None
+                        else:
+                            # the shortcut does everything; redo set-up/optimise identically to obtain op/res for the trace
+                            out = eao.io.optimize(pf, tg, pr)
+                            if out['dispatch'] is None:
+                                res = 'not successful'
+                            else:
+                                op = pf.setup_optim_problem(pr, tg)
+                                res = op.optimize()
+                except MachineryError:
+                    raise
+                except Exception as e:
+                    if route == 'split' and name in SPLIT_UNSUPPORTED:
+                        chk.cnt['split_not_applicable'] += 1
+                        continue
+                    chk.violation(dict(sel, check='pipeline_raises', error=type(e).__name__), 'pipeline raised %s: %s' % (type(e).__name__, e), dict(portfolio=name, seed=seed))
+                    continue
+                chk.cnt['eval_pipeline_runs'] += 1
+                if isinstance(res, str) or out is None or out.get('dispatch') is None:
+                    chk.cnt['pipeline_' + str(res).replace(' ', '_')] += 1
+                    continue
+                traces.append(REC.portfolio_trace(pf, op, res, out))
+                meta.append((sel, seed))
+    if not traces:
+        return
+    bad = copy.deepcopy(traces[0])
+    bad['steps'][0]['rflow'][0][0] += 7000
+    bad2 = copy.deepcopy(traces[0])
+    bad2['rval'] += 9000
+    verdicts, st = REC.validate_traces(traces + [bad, bad2], module='Trace_Portfolio')
+    chk.add_tlc(st)
+    chk.traces += len(traces)
+    if verdicts[-1][1] == 'accepted' or verdicts[-2][1] == 'accepted':
+        raise MachineryError('anti-vacuity: corrupted portfolio trace accepted %s' % (verdicts[-2:],))
+    chk.notes['corrupted_portfolio_trace_verdicts'] = [verdicts[-2][1], verdicts[-1][1]]
+    for (sel, seed), (line, v), tr in zip(meta, verdicts, traces):
+        if v == 'accepted' or (clause_filter and not clause_filter(v)):
+            chk.cnt['portfolio_traces_accepted' if v == 'accepted' else 'portfolio_traces_rejected_for_other_property'] += 1
+            chk.nontrivial(('ptrace', sel['portfolio'], sel['route'], seed))
+        else:
+            chk.violation(dict(sel, guard=v.split('@')[0], where=v), 'reported tables rejected at line %d: %s' % (line, v), dict(portfolio=sel['portfolio'], seed=seed, route=sel['route']))
+    chk.sample(dict(kind='portfolio trace (reported dispatch / DCF tables)', portfolio=meta[0][0]['portfolio'], first_step=traces[0]['steps'][0],
+                    cx=traces[0]['cx'], rval=traces[0]['rval'], verdict=verdicts[0]), limit=6)
+
+
+# portfolios for which setup_split_optim_problem is not applicable by construction (asset state across intervals is
+# declared once: plants' initial state, linked assets; order books / periodic assets need the whole grid)
+SPLIT_UNSUPPORTED = set()
